@@ -73,7 +73,8 @@ package keeper
 // Under quantifiers only direct field access is used (see x/bitcoin/types/contracts_verif_deposit.go).
 
 //@ func (msgServer).NewDeposits
-//@ property C03
+// C06: the enqueue side of the hand-over for credited deposits (one receipt per deposit, in batch order: queue_* clauses)
+//@ property C03 C06
 //@ requires inv20: st.bitcoin.Params.DepositTaxRate < 10000 && st.bitcoin.Params.MinDepositAmount >= 1000
 //@ requires voted_below_tip: forall(h, 0, 18446744073709551616, has(st.bitcoin.BlockHashes, h) ==> h <= st.bitcoin.BlockTip)
 //@ requires tip_bound: st.bitcoin.BlockTip < 9223372036854775808
